@@ -42,29 +42,33 @@ impl AsRawFd for BorrowedFd<'_> {
     fn as_raw_fd(&self) -> (r: i32) ensures r as int == raw_of(self.id@) { unimplemented!() }
 }
 
-#[verifier::external_body]
-pub struct File { _p: () }
-impl File { pub uninterp spec fn id(&self) -> int; }
+pub struct File { pub fd: OwnedFd }
+impl File { pub open spec fn id(&self) -> int { self.fd.id() } }
 impl AsFd for File {
-    open spec fn fd_id(&self) -> int { self.id() }
-    #[verifier::external_body]
-    fn as_fd(&self) -> (r: BorrowedFd<'_>) { unimplemented!() }
+    open spec fn fd_id(&self) -> int { self.fd.id() }
+    fn as_fd(&self) -> (r: BorrowedFd<'_>) { self.fd.as_fd() }
 }
 impl vstd::std_specs::convert::FromSpecImpl<OwnedFd> for File {
-    open spec fn obeys_from_spec() -> bool { false }
-    uninterp spec fn from_spec(fd: OwnedFd) -> File;
+    open spec fn obeys_from_spec() -> bool { true }
+    open spec fn from_spec(fd: OwnedFd) -> File { File { fd } }
 }
-impl From<OwnedFd> for File {
-    #[verifier::external_body]
-    fn from(fd: OwnedFd) -> (r: File) ensures r.id() == fd.id() { unimplemented!() }
-}
+impl From<OwnedFd> for File { fn from(fd: OwnedFd) -> (r: File) { File { fd } } }
 impl vstd::std_specs::convert::FromSpecImpl<File> for OwnedFd {
-    open spec fn obeys_from_spec() -> bool { false }
-    uninterp spec fn from_spec(fd: File) -> OwnedFd;
+    open spec fn obeys_from_spec() -> bool { true }
+    open spec fn from_spec(f: File) -> OwnedFd { f.fd }
 }
-impl From<File> for OwnedFd {
-    #[verifier::external_body]
-    fn from(fd: File) -> (r: OwnedFd) ensures r.id() == fd.id() { unimplemented!() }
-}
+impl From<File> for OwnedFd { fn from(f: File) -> (r: OwnedFd) { f.fd } }
 pub uninterp spec fn mnt_checked(id: int) -> bool;  // statx mount id was compared with the procfs handle's
 pub uninterp spec fn opened_from(fd: int, dir: int, name: Seq<u8>) -> bool; // fd = openat(dir, name)
+// ---- relations used to state C14 ("exactly the *at call on (in-root parent, final name)")
+/// `h` is the result of the in-root resolution of `path` under root `root` (A4 / U06)
+pub uninterp spec fn resolved_from(h: int, root: int, path: Seq<u8>, nofollow: bool) -> bool;
+/// rigid (universally quantified) names for "the arguments of the operation being verified"
+pub uninterp spec fn requested_path(which: int) -> Seq<u8>;
+pub uninterp spec fn requested_root() -> int;
+pub uninterp spec fn requested_mode() -> u32;
+pub uninterp spec fn requested_fmt() -> u32;
+pub uninterp spec fn requested_dev() -> u64;
+pub uninterp spec fn requested_oflags() -> i32;
+pub uninterp spec fn requested_rflags() -> u32;
+pub uninterp spec fn link_body_of(fd: int, body: Seq<u8>) -> bool; // readlinkat(fd, "") returned body
